@@ -16,13 +16,33 @@ void Group::replaceEntities(const std::vector<T> &entities)
 {
     base::IGroup *ig = backend();
     ObjectType ot = objectToType<T>::value;
+    typedef typename objectToType<T>::backendType backend_type;
 
-    while (ig->entityCount(ot) > 0) {
-        ig->removeEntity(ig->getEntity<typename objectToType<T>::backendType>(0));
+    // remember the current members: if one of the new entities cannot be added (it is not in
+    // this block) the call fails as a whole and must leave the group as it was
+    std::vector<T> previous;
+    ndsize_t count = ig->entityCount(ot);
+    for (ndsize_t i = 0; i < count; i++) {
+        previous.push_back(T(ig->getEntity<backend_type>(i)));
     }
 
-    for (const auto &e : entities) {
-        ig->addEntity(e);
+    auto clear = [ig, ot]() {
+        while (ig->entityCount(ot) > 0) {
+            ig->removeEntity(ig->getEntity<backend_type>(0));
+        }
+    };
+
+    clear();
+    try {
+        for (const auto &e : entities) {
+            ig->addEntity(e);
+        }
+    } catch (...) {
+        clear();
+        for (const auto &e : previous) {
+            ig->addEntity(e);
+        }
+        throw;
     }
 }
 
